@@ -115,7 +115,7 @@ Lemma enc_cont : forall f m, Forall (fun b => 128 <= b) (enc f m).
 Proof.
   induction f as [|f IH]; intros m; cbn [enc]; [constructor|].
   destruct (m =? 0); [constructor|].
-  apply Forall_app. split; [apply IH|]. constructor; [lia|constructor].
+  apply Forall_app. split; [apply IH|]. constructor; [apply N.le_add_r|constructor].
 Qed.
 
 Lemma rd_cont_eof : forall l st,
@@ -159,7 +159,8 @@ Proof.
     destruct (m =? 0); [constructor|].
     apply Forall_app. split; [apply IH|].
     constructor; [|constructor].
-    assert ((m - 1) mod 128 < 128) by (apply N.mod_lt; lia). lia.
+    assert (H : (m - 1) mod 128 < 128) by (apply N.mod_lt; lia).
+    revert H. generalize ((m - 1) mod 128). intros; lia.
   - constructor; [|constructor].
     assert (n mod 128 < 128) by (apply N.mod_lt; lia). lia.
 Qed.
